@@ -109,6 +109,45 @@ func c06Setup(r *drv.Run, i int, rng *gen.Rng) *c06Layout {
 	return l
 }
 
+// c06BigLayout: one large file whose unmatched stretches (before the first match, between matches, after the
+// last one) have lengths at and next to powers of two well beyond the 4096-byte window: copy loops that work
+// in blocks show their boundary arithmetic only there.
+func c06BigLayout(r *drv.Run, i int, rng *gen.Rng) *c06Layout {
+	l := &c06Layout{dir: filepath.Join(r.WorkDir, "c06", fmt.Sprint(i)), contents: map[string][]byte{}, stale: map[string][]byte{}}
+	os.MkdirAll(l.dir, 0o755)
+	gaps := []int{16384, 32768, 65536, 131072}
+	filler := []byte("xyz \nq")
+	var b []byte
+	nm := 1 + rng.Intn(3)
+	for k := 0; k <= nm; k++ {
+		g := gaps[rng.Intn(len(gaps))] + rng.Intn(3) - 1
+		if rng.Chance(1, 2) {
+			g = gaps[rng.Intn(len(gaps))] // exact multiples half of the time
+		}
+		if k == nm && rng.Chance(1, 4) {
+			g = 0 // match at EOF
+		}
+		for j := 0; j < g; j++ {
+			b = append(b, filler[rng.Intn(len(filler))])
+		}
+		if k < nm {
+			b = append(b, 'a', 'b')
+		}
+	}
+	name := "in0.txt"
+	l.names = []string{name}
+	l.contents[name] = b
+	os.WriteFile(filepath.Join(l.dir, name), b, 0o644)
+	if rng.Chance(1, 2) {
+		st := bytes.Repeat([]byte("STALE-"), len(b)/4)
+		l.stale[name+".vored"] = st
+		os.WriteFile(filepath.Join(l.dir, name+".vored"), st, 0o644)
+	}
+	os.WriteFile(filepath.Join(l.dir, "bystander.dat"), []byte("do not touch"), 0o600)
+	l.before = fsmon.Take(l.dir)
+	return l
+}
+
 func C06(r *drv.Run) {
 	r.BuildWorker()
 	n := 500
@@ -117,17 +156,32 @@ func C06(r *drv.Run) {
 		n = 9000
 		ncli = 250
 	}
-	r.Rule = "RunFiles on scratch directories: 18 commands (replacement shorter / longer / empty / identical to the matched text, zero matches, adjacent matches, match at offset 0 and at EOF, captures, a transform, two commands over the same files, find commands) x 1..2 files of sizes 0, 1, 7, 40, 200, 4095..4097, 8191, 8193, 10 000 x {NOTHING, NEW, OVERWRITE}, with stale longer .vored files and bystander files present. Oracle: directory snapshot (type, size, mode, SHA-256, inode) before/after must differ by exactly the change set the mode allows, and the written text must equal the splice of the original bytes with the replacements of the in-memory run at its spans; every file the library opens for writing (hook H5) must be in the allowed set. Sessions: 3..6 steps in ONE worker process over the same two paths - a file is rewritten between steps (often with different bytes of the SAME size), then one or two literal replace commands run in a random mode; the expected content of every file after every step comes from a harness-side model (sequential ReplaceAll for OVERWRITE, last command on the unchanged source for NEW), so nothing remembered from an earlier call or command may leak into a later one. Thorough tier additionally drives the built CLI under strace and checks every path opened for writing/creating/truncating, renamed, unlinked or truncated. Non-trivial = a replace run with >= 1 match in mode NEW or OVERWRITE whose output was verified; distinct by (command, layout, mode)."
+	r.Rule = "RunFiles on scratch directories: 18 commands (replacement shorter / longer / empty / identical to the matched text, zero matches, adjacent matches, match at offset 0 and at EOF, captures, a transform, two commands over the same files, find commands) x 1..2 files of sizes 0, 1, 7, 40, 200, 4095..4097, 8191, 8193, 10 000 x {NOTHING, NEW, OVERWRITE}, plus large files (up to ~400 KB) whose unmatched stretches before, between and after 1..3 matches are exactly 16384 / 32768 / 65536 / 131072 bytes or one byte off, with stale longer .vored files and bystander files present. Oracle: directory snapshot (type, size, mode, SHA-256, inode) before/after must differ by exactly the change set the mode allows, and the written text must equal the splice of the original bytes with the replacements of the in-memory run at its spans; every file the library opens for writing (hook H5) must be in the allowed set. Sessions: 3..6 steps in ONE worker process over the same two paths - a file is rewritten between steps (often with different bytes of the SAME size), then one or two literal replace commands run in a random mode; the expected content of every file after every step comes from a harness-side model (sequential ReplaceAll for OVERWRITE, last command on the unchanged source for NEW), so nothing remembered from an earlier call or command may leak into a later one. Thorough tier additionally drives the built CLI under strace and checks every path opened for writing/creating/truncating, renamed, unlinked or truncated. Non-trivial = a replace run with >= 1 match in mode NEW or OVERWRITE whose output was verified; distinct by (command, layout, mode)."
 	r.Assumptions = []string{
 		"the spans and replacements spliced are those of Run on the same bytes (C01/C05/C07 judge those)",
 		"with two replace commands in one source each command rewrites from the file as the previous command left it (OVERWRITE) or from the unchanged source (NEW): the expected text is computed accordingly",
 	}
 	modes := []string{"NOTHING", "NEW", "OVERWRITE"}
-	r.Exec(n, drv.ExecOpts{Batch: 25}, func(i int) *drv.Item {
+	nbig := 24
+	if !quick(r) {
+		nbig = 240
+	}
+	bigCmds := []int{0, 1, 3, 12}
+	r.Exec(n+nbig, drv.ExecOpts{Batch: 25}, func(i int) *drv.Item {
 		rng := gen.Derive(r.Seed, "C06", i)
 		cmd := c06Commands[i%len(c06Commands)]
 		mode := modes[(i/len(c06Commands))%3]
-		l := c06Setup(r, i, rng)
+		var l *c06Layout
+		if i >= n {
+			cmd = c06Commands[bigCmds[(i-n)%len(bigCmds)]]
+			mode = modes[1+((i-n)/len(bigCmds))%2]
+			if (i-n)%11 == 10 {
+				mode = "NOTHING"
+			}
+			l = c06BigLayout(r, i, rng)
+		} else {
+			l = c06Setup(r, i, rng)
+		}
 		var paths []string
 		var texts [][]byte
 		for _, nm := range l.names {
@@ -145,7 +199,7 @@ func C06(r *drv.Run) {
 		c06CLI(r, ncli)
 	}
 	if r.NViolations() == 0 {
-		for _, k := range []string{"verified_NEW", "verified_OVERWRITE", "verified_NOTHING", "verified_find", "stale_vored_replaced", "write_opens_checked", "session_steps_verified", "session_same_size_rewrites", "session_multi_command_overwrite_steps"} {
+		for _, k := range []string{"verified_NEW", "verified_OVERWRITE", "verified_NOTHING", "verified_find", "stale_vored_replaced", "write_opens_checked", "session_steps_verified", "session_same_size_rewrites", "session_multi_command_overwrite_steps", "verified_large_file_outputs"} {
 			if r.Counter(k) == 0 {
 				r.Inconclusive("coverage floor: " + k + " = 0")
 			}
@@ -274,6 +328,11 @@ func c06Check(r *drv.Run, l *c06Layout, src string, replace bool, mode string, c
 		}
 	}
 	r.Count("verified_"+mode, 1)
+	for _, nm := range l.names {
+		if len(l.contents[nm]) > 16000 {
+			r.Count("verified_large_file_outputs", 1)
+		}
+	}
 	if nmatches > 0 {
 		r.Nontrivial(fmt.Sprintf("%s|%s|%d", src, mode, i))
 	}
